@@ -482,6 +482,25 @@ class Result:
         return 1 if self.violations else 0
 
 
+def coqchk_property(res, pid, timeout=3000):
+    """thorough tier: re-check the compiled property file and everything it depends on with the independent checker
+    coqchk, and record the axioms it lists (`-o`).  Returns True when coqchk accepts and lists no axiom outside the
+    allow-list of DESIGN section 6 (none are expected)."""
+    rc, out, err = sh(["coqchk", "-o", "-silent", "-Q", ".", "BM", "BM.Properties.Properties_%s" % pid], cwd=COQ, timeout=timeout)
+    txt = out + err
+    m = re.search(r"\* Axioms:(.*?)\n\s*\n\* Constants", txt, re.S)
+    axioms = " ".join(m.group(1).split()) if m else "<not parsed>"
+    res.coverage["coqchk"] = {"rc": rc, "axioms": axioms,
+                              "type_in_type": "<none>" if "type-in-type: <none>" in txt else "see log",
+                              "unsafe_fixpoints": "<none>" if "unsafe (co)fixpoints: <none>" in txt else "see log",
+                              "assumed_positivity": "<none>" if "positivity is assumed: <none>" in txt else "see log"}
+    ok = rc == 0 and axioms == "<none>"
+    if not ok:
+        path = write_replay(pid, "", {"property": pid, "found-by": "proof:coqchk", "log": txt[-3000:]})
+        res.violation(path, "coqchk does not accept the development or lists axioms", no_input=True)
+    return ok
+
+
 def proof_coverage(res, coq):
     """Fill the proof-level coverage keys from coq_check_property's result."""
     res.coverage.update({
